@@ -601,7 +601,7 @@ pub fn gen(rng: &mut Rng, thorough: bool, out: &mut Vec<String>) {
         }
     }
     // 3. random pairs, small and medium; sizes up to 2^10 (quick) / 2^13 (thorough) for the NTT arm
-    let n = if thorough { 6000 } else { 700 };
+    let n = if thorough { 14000 } else { 700 };
     let big = if thorough { 6000 } else { 900 };
     for i in 0..n {
         let f = *rng.pick(&fields4);
@@ -672,7 +672,7 @@ pub fn gen(rng: &mut Rng, thorough: bool, out: &mut Vec<String>) {
     //    thread counts 1..16 for the parallel variant
     let lens: Vec<usize> = vec![0, 1, 2, 3, 4, 5, 6, 7, 8, 9, 15, 16, 17, 31, 33];
     let threads = [1usize, 2, 3, 4, 5, 7, 8, 16];
-    let reps = if thorough { 6 } else { 1 };
+    let reps = if thorough { 12 } else { 1 };
     for _ in 0..reps {
         for &l in &lens {
             for f in ["b", "x"] {
